@@ -122,42 +122,80 @@ func (v *Verifier) expandConstructs() []string {
 				addClause(c, "ensures", "C20,C14", "backing", "len(*s) <= cap(*s) && (old(len(*s)) < old(cap(*s)) ? (*s).arr == old((*s).arr) && cap(*s) == old(cap(*s)) : fresh((*s).arr))")
 			}
 			v.contracts.add(c)
-			// func N
-			if f := v.fnByKey[name]; f != nil {
-				c := mk(name, props)
-				if fn.isFunc {
-					addMod(c, "calls[f]", "apiEffects")
-					addClause(c, "ensures", "C14", "once", "calls[f] == old(calls[f]) + 1")
-					addClause(c, "ensures", "C14,C20,C09", "fresh", "fresh(result)")
-					addClause(c, "ensures", "C14,C01", "item", "len(*result) >= 1 && "+item("(*result)[len(*result) - 1]"))
-				} else {
-					addClause(c, "ensures", "C14,C20,C09", "fresh", "fresh(result) && len(*result) == 1 && fresh((*result).arr)")
-					addClause(c, "ensures", "C14,C01", "item", item("(*result)[0]"))
-				}
-				v.contracts.add(c)
+		}
+	}
+	// Every construct's function form and *Group form delegate to the *Statement method: their contracts are
+	// derived from the method's contract (hand-written or generated), so that all forms are specified alike.
+	for _, key := range append([]string(nil), v.contracts.order...) {
+		if !strings.HasPrefix(key, "(*Statement).") {
+			continue
+		}
+		m := v.contracts.byKey[key]
+		name := strings.TrimPrefix(key, "(*Statement).")
+		sfn := v.fnByKey[key]
+		if sfn == nil || !sfn.Object().Exported() || name == "Clone" || name == "GoString" || name == "Render" || name == "RenderWithFile" {
+			continue
+		}
+		callback := false
+		for _, ms := range m.ModSrc {
+			if ms == "apiEffects" {
+				callback = true
 			}
-			// (*Group).N
-			if f := v.fnByKey["(*Group)."+name]; f != nil {
-				c := mk("(*Group)."+name, props)
-				addClause(c, "requires", "", "recv", "g != nil")
-				addMod(c, "g.items", "tail(g.items)")
-				if fn.isFunc {
-					addMod(c, "calls[f]", "apiEffects")
-					addClause(c, "ensures", "C14", "once", "calls[f] == old(calls[f]) + 1")
-					// (the item itself is specified on the function form, which this form delegates to)
-					addClause(c, "ensures", "C14,C20,C09", "fresh", "fresh(result)")
-				} else {
-					addClause(c, "ensures", "C14,C20,C09", "fresh", "fresh(result) && len(*result) == 1 && fresh((*result).arr)")
-					addClause(c, "ensures", "C14,C01", "item", item("(*result)[0]"))
+		}
+		mprops := m.Props
+		if len(mprops) == 0 {
+			mprops = props
+		}
+		derive := func(c *Contract, groupForm bool) {
+			for _, r := range m.Requires {
+				if !mentionsIdent(r.Expr, "s") {
+					c.Requires = append(c.Requires, r)
 				}
-				if !fn.isFunc {
-					addClause(c, "ensures", "C14", "appended", "len(g.items) == old(len(g.items)) + 1 && g.items[old(len(g.items))] == C_pStatement(result) && (forall j int :: { g.items[j] } (0 <= j && j < old(len(g.items))) ==> g.items[j] == old(g.items[j]))")
-				} else {
-					// the callback may have appended to g as well: the new statement is the last item
-					addClause(c, "ensures", "C14", "appended", "len(g.items) >= 1 && g.items[len(g.items) - 1] == C_pStatement(result)")
-				}
-				v.contracts.add(c)
 			}
+			for i, me := range m.Modifies {
+				if !mentionsIdent(me, "s") {
+					c.Modifies = append(c.Modifies, me)
+					c.ModSrc = append(c.ModSrc, m.ModSrc[i])
+				}
+			}
+			for _, e := range m.Ensures {
+				if e.Label == "self" || e.Label == "backing" {
+					continue
+				}
+				if !mentionsIdent(e.Expr, "s") {
+					c.Ensures = append(c.Ensures, e)
+					continue
+				}
+				if groupForm && callback {
+					continue // the callback may alias anything: the item is specified on the function form
+				}
+				te := onFreshStatement(e.Expr)
+				c.Ensures = append(c.Ensures, &Clause{Kind: "ensures", Props: e.Props, Label: e.Label, Expr: te, Src: te.String(), Unfold: e.Unfold})
+			}
+		}
+		if f := v.fnByKey[name]; f != nil && v.contracts.byKey[name] == nil {
+			c := mk(name, mprops)
+			derive(c, false)
+			if callback {
+				addClause(c, "ensures", "C14,C20,C09", "fresh", "fresh(result)")
+			} else {
+				addClause(c, "ensures", "C14,C20,C09", "fresh", "fresh(result) && (len(*result) > 0 ==> fresh((*result).arr))")
+			}
+			v.contracts.add(c)
+		}
+		if f := v.fnByKey["(*Group)."+name]; f != nil && v.contracts.byKey["(*Group)."+name] == nil {
+			c := mk("(*Group)."+name, mprops)
+			addClause(c, "requires", "", "recv", "g != nil")
+			addMod(c, "g.items", "tail(g.items)")
+			derive(c, true)
+			if callback {
+				addClause(c, "ensures", "C14,C20,C09", "fresh", "fresh(result)")
+				addClause(c, "ensures", "C14", "added", "len(g.items) >= 1 && g.items[len(g.items) - 1] == C_pStatement(result)")
+			} else {
+				addClause(c, "ensures", "C14,C20,C09", "fresh", "fresh(result) && (len(*result) > 0 ==> fresh((*result).arr))")
+				addClause(c, "ensures", "C14", "added", "len(g.items) == old(len(g.items)) + 1 && g.items[old(len(g.items))] == C_pStatement(result) && (forall j int :: { g.items[j] } (0 <= j && j < old(len(g.items))) ==> g.items[j] == old(g.items[j]))")
+			}
+			v.contracts.add(c)
 		}
 	}
 	return errs
@@ -178,4 +216,62 @@ func (cs *Contracts) add(c *Contract) {
 	number(c.Ensures, "e")
 	cs.byKey[c.Key] = c
 	cs.order = append(cs.order, c.Key)
+}
+
+func mentionsIdent(e *Expr, name string) bool {
+	if e == nil {
+		return false
+	}
+	if e.Kind == "ident" && e.Name == name {
+		return true
+	}
+	for _, x := range []*Expr{e.X, e.Y, e.Z} {
+		if mentionsIdent(x, name) {
+			return true
+		}
+	}
+	for _, a := range e.Args {
+		if mentionsIdent(a, name) {
+			return true
+		}
+	}
+	for _, p := range e.Pats {
+		for _, x := range p {
+			if mentionsIdent(x, name) {
+				return true
+			}
+		}
+	}
+	return false
+}
+
+// onFreshStatement rewrites a postcondition of a *Statement method about receiver s into the
+// postcondition of the function form, where the receiver is a new, empty statement: s -> result,
+// old(len(*s)) and old(cap(*s)) -> 0.
+func onFreshStatement(e *Expr) *Expr {
+	if e == nil {
+		return nil
+	}
+	if e.Kind == "old" && e.X != nil && e.X.Kind == "call" && (e.X.Name == "len" || e.X.Name == "cap") && len(e.X.Args) == 1 &&
+		e.X.Args[0].Kind == "deref" && e.X.Args[0].X.Kind == "ident" && e.X.Args[0].X.Name == "s" {
+		return &Expr{Kind: "int", Val: "0", Pos: e.Pos}
+	}
+	if e.Kind == "ident" && e.Name == "s" {
+		return &Expr{Kind: "ident", Name: "result", Pos: e.Pos}
+	}
+	c := *e
+	c.X, c.Y, c.Z = onFreshStatement(e.X), onFreshStatement(e.Y), onFreshStatement(e.Z)
+	c.Args = nil
+	for _, a := range e.Args {
+		c.Args = append(c.Args, onFreshStatement(a))
+	}
+	c.Pats = nil
+	for _, p := range e.Pats {
+		var np []*Expr
+		for _, x := range p {
+			np = append(np, onFreshStatement(x))
+		}
+		c.Pats = append(c.Pats, np)
+	}
+	return &c
 }
